@@ -76,6 +76,13 @@ def gen_history(rng, size):
     nows = sorted(rng.sample(range(0, 60), n_inv))
     if rng.random() < 0.3:
         nows[0] = 0
+    # (derived generator: the histories drawn from `rng` stay the ones drawn before this option existed)
+    import random as _random
+    r2 = _random.Random("same-instant/%r/%r" % (nows, n_models))
+    if n_inv >= 2 and r2.random() < 0.3:
+        # the policy is invoked AGAIN at the same simulated instant (new requests arrived in between)
+        for k in r2.sample(range(1, n_inv), r2.choice([1, 1, 2]) if n_inv > 2 else 1):
+            nows[k] = nows[k - 1]
     tasks, script = [], []
     tid = 0
     running = []
